@@ -415,6 +415,8 @@ def shared(ctx):
     from rules.engine import core
     from rules.props import c07
     core.import_rules(ctx, [c07.r6_stake_commitment, c07.r1_header_map], "X07")
+    from rules.props import c01
+    core.import_rules(ctx, [c01.r10_no_wraparound], "X01")     # voting power is a sum of stakes, not a sum modulo 2^128
 
 
 RULES = [r1_consistency, r2_registration, r3_lock_gate, r3_new_stakes_flow, r4_expiry, r5_epoch_filters, r6_stakes_after_success, shared]
